@@ -225,9 +225,18 @@ func checkC04Batch(t *testing.T, c C04Batch) Verdict {
 		if want == nil {
 			want = postErr
 		}
+		itemFailed := false
+		for _, e := range evs {
+			if (e.Kind == "exec" || e.Kind == "fb") && (e.RetErr != nil || e.RetResErr != nil) {
+				itemFailed = true
+			}
+		}
 		switch {
+		case want == nil && err != nil && itemFailed:
+			// whether item failures also surface in Run's error is left open (today they only go to the slots)
+			v = ok(false, "batch", "item-failures-only")
 		case want == nil && err != nil:
-			v = bad("C04:batch-spurious-error", "batch prep and post succeeded (item errors belong in result slots) but the run returned %v", err)
+			v = bad("C04:batch-spurious-error", "every phase of the batch run succeeded (prep, every item, post) but the run returned %v", err)
 		case want != nil && err == nil:
 			v = bad("C04:batch-swallowed", "batch %s failed with %q but the run returned nil", map[bool]string{true: "prep", false: "post"}[prepErr != nil], want)
 		case want != nil:
